@@ -102,7 +102,7 @@ func (w *World) step(host string, pre Cookie, cookieVal string, q Req, a Ans, r 
 	default:
 		s, err := w.P.Open(after)
 		if err != nil {
-			o.After = Cookie{Kind: "garbage", Life: -1, Ref: -1, Val: -1, Grace: -1, Email: "empty", Tok: "none"}
+			o.After = garbageCookie
 		} else {
 			o.After = Project(s, host, now)
 		}
@@ -123,7 +123,7 @@ func (w *World) RunCell(n int, cell Cell, r *rand.Rand) Line {
 		val, note = w.garbage(r, host, now)
 	case "otherkey":
 		other, _ := world.NewProxy(world.ProxyOpts{UpstreamYAML: "- service: x\n  default:\n    from: x.test\n    to: 127.0.0.1:1\n    options:\n      allowed_groups:\n        - g\n", ProviderURL: w.FA.URL(), Secret: world.OtherSecret})
-		s := Session(Cookie{Kind: "sess", SlugOk: true, HostOk: true, Life: 3, Ref: 2, Val: 1, Grace: -1, Email: "match", RT: true}, host, now, r)
+		s := Session(Cookie{Kind: "sess", SlugOk: true, HostOk: true, Life: 3, Ref: 2, Val: 1, Grace: -1, Email: "match", RT: true, Grp: "in"}, host, now, r)
 		val = other.Seal(s)
 		note = "sealed under another secret"
 	case "sess":
